@@ -266,7 +266,10 @@ def createAuthSvc (s : St) (a : AuthRec) : Res Nat :=
     let s := { s with nextAuth := g.2 }
     match g.1 with
     | none => (s, .ok 0)
-    | some id => ({ s with tokIdx := KV.put s.tokIdx a.token id, auths := KV.put s.auths id a }, .ok id)
+    | some id =>
+      -- commitAuthorization: json.Marshal fails on a permission naming the invalid resource id 0
+      if a.perms.any (fun p => p.Resource.ID = some 0) then (s, .error (.base .inv))
+      else ({ s with tokIdx := KV.put s.tokIdx a.token id, auths := KV.put s.auths id a }, .ok id)
 
 /-- service.go `UpdateAuthorization` (status only) -/
 def updateAuthSvc (s : St) (id : Nat) (active : Bool) : Res Nat :=
